@@ -102,6 +102,14 @@ def lean_phase(cfg, pid, tier, cmds):
         b = run(["lake", "build", props_mod, "aurora-driver"], cwd=LEAN, timeout=3600)
         cmds.append(f"(cd lean && lake build {props_mod} aurora-driver)")
         names = theorem_names(props_path) if os.path.exists(props_path) else []
+        # optional: further Props modules (imported by props_mod) whose theorems are obligations too
+        extra_mods = cfg.get("lean_props_extra", [])
+        for em in extra_mods:
+            ep = os.path.join(LEAN, em.replace(".", "/") + ".lean")
+            if os.path.exists(ep):
+                names += theorem_names(ep)
+            else:
+                problems.append("lean_props_extra module not found: " + em)
         obligations = [{"name": n, "axioms": None, "discharged": False} for n in names]
         if b.returncode != 0:
             errs = [l for l in (b.stdout + b.stderr).splitlines() if "error" in l][:8]
@@ -114,7 +122,7 @@ def lean_phase(cfg, pid, tier, cmds):
         os.makedirs(os.path.join(LEAN, "Audit"), exist_ok=True)
         ap = os.path.join(LEAN, "Audit", f"{pid}.lean")
         with open(ap, "w") as f:
-            f.write(f"import {props_mod}\n" + "".join(f"#print axioms {n}\n" for n in names))
+            f.write("".join(f"import {m}\n" for m in [props_mod] + extra_mods) + "".join(f"#print axioms {n}\n" for n in names))
         a = run(["lake", "env", "lean", ap], cwd=LEAN, timeout=1800)
         cmds.append(f"(cd lean && lake env lean Audit/{pid}.lean)   # #print axioms for every theorem")
         text = a.stdout + a.stderr
